@@ -4,6 +4,7 @@ import itertools
 import g2
 
 PROPERTY = 'C09'
+THOROUGH_EXTRA = 80
 
 EVENTS = [
     ['none'],
@@ -105,7 +106,7 @@ def subharnesses(tier):
 
 
 def budget(tier, name):
-    return 400.0 if tier == 'quick' else 1500.0
+    return 400.0 if tier == 'quick' else 600.0
 
 
 def harness(S, spec):
